@@ -19,6 +19,29 @@ fn ranges_of(f: &dyn Fn(char) -> bool) -> Vec<(u32, u32)> {
 }
 fn show(r: &[(u32, u32)]) -> String { if r.is_empty() { "-".into() } else { r.iter().map(|(a, b)| format!("{}-{}", a, b)).collect::<Vec<_>>().join(",") } }
 
+/// `pest_generator::generator::generate` for `r = { NAME }`: the body of `fn NAME` among the emitted built-in rules
+fn generated_builtin(name: &str) -> String {
+    use pest_meta::optimizer::{OptimizedExpr, OptimizedRule};
+    let rules = vec![OptimizedRule { name: "r".into(), ty: pest_meta::ast::RuleType::Normal, expr: OptimizedExpr::Ident(name.to_string()) }];
+    let pd = pest_generator::parse_derive::ParsedDerive { name: syn::Ident::new("P", proc_macro2::Span::call_site()), generics: syn::Generics::default(), non_exhaustive: false };
+    let doc = pest_generator::docs::DocComment { grammar_doc: String::new(), line_docs: std::collections::HashMap::new() };
+    let tokens = match catch(|| pest_generator::generator::generate(pd, vec![], rules, vec![name], &doc, false)) { Ok(t) => t, Err(_) => return "generator-panicked".into() };
+    let file: syn::File = match syn::parse2(tokens) { Ok(f) => f, Err(_) => return "unparsable".into() };
+    // find `fn NAME` anywhere in the item tree and print its block with all whitespace removed
+    fn find(items: &[syn::Item], name: &str) -> Option<String> {
+        for it in items {
+            match it {
+                syn::Item::Fn(f) if f.sig.ident == name => { use quote::ToTokens; return Some(f.block.to_token_stream().to_string().split_whitespace().collect::<String>()); }
+                syn::Item::Mod(m) => if let Some((_, its)) = &m.content { if let Some(x) = find(its, name) { return Some(x); } },
+                syn::Item::Impl(im) => { for ii in &im.items { if let syn::ImplItem::Fn(f) = ii { for st in &f.block.stmts { if let syn::Stmt::Item(i2) = st { if let Some(x) = find(std::slice::from_ref(i2), name) { return Some(x); } } } } } }
+                _ => {}
+            }
+        }
+        None
+    }
+    find(&file.items, name).unwrap_or_else(|| "not-emitted".into())
+}
+
 fn eval_line(l: &str, stats: &mut BTreeMap<String, u64>, thorough: bool) -> (String, String) {
     let w: Vec<&str> = l.split_whitespace().collect();
     match w.as_slice() {
@@ -44,6 +67,22 @@ fn eval_line(l: &str, stats: &mut BTreeMap<String, u64>, thorough: bool) -> (Str
                 (show(&r), verdict)
             }
         },
+        // the function the generator emits for the built-in rule NAME, as normalised text
+        ["B", n] => { *stats.entry("generated_builtins".into()).or_default() += 1;
+            let body = generated_builtin(n);
+            // search: when the emitted predicate is another table or a std predicate, look for a scalar value on which it
+            // differs from pest::unicode::NAME
+            let mut verdict = "ok".to_string();
+            if let (Some(f), Some(p)) = (FUNCS.iter().find(|f| f.1 == *n), body.strip_prefix("{state.match_char_by(").and_then(|r| r.strip_suffix(")}"))) {
+                let other: Option<Box<dyn Fn(char) -> bool>> = match p {
+                    "char::is_numeric" => Some(Box::new(char::is_numeric)), "char::is_lowercase" => Some(Box::new(char::is_lowercase)), "char::is_uppercase" => Some(Box::new(char::is_uppercase)),
+                    "char::is_whitespace" => Some(Box::new(char::is_whitespace)), "char::is_control" => Some(Box::new(char::is_control)), "char::is_alphabetic" => Some(Box::new(char::is_alphabetic)),
+                    "char::is_alphanumeric" => Some(Box::new(char::is_alphanumeric)),
+                    q => q.strip_prefix("::pest::unicode::").and_then(|x| FUNCS.iter().find(|g| g.1 == x)).map(|g| { let h = g.2; Box::new(move |c: char| h(c)) as Box<dyn Fn(char) -> bool> }),
+                };
+                if let Some(o) = other { for cp in 0..=0x10FFFFu32 { if let Some(c) = char::from_u32(cp) { if o(c) != (f.2)(c) { verdict = format!("FAIL the generated parser's built-in {} uses {} which differs from pest::unicode::{} on U+{:04X}", n, p, n, cp); break; } } } }
+            }
+            (body, verdict) }
         ["N", n] => (match pest::unicode::by_name(n) { Some(_) => match FUNCS.iter().find(|f| f.1 == *n) { Some(f) => format!("{} {}", f.0, f.1), None => "unadvertised".into() }, None => "none".into() }, "ok".into()),
         _ => ("bad-op".into(), "ok".into()),
     }
@@ -58,6 +97,7 @@ fn main() {
         Cmd::Gen { thorough, seed: _, out: dir } => {
             let (i, v) = eval_line("A", &mut stats, thorough); out.push("A".into(), i, v);
             for f in FUNCS { let l = format!("U {} {}", f.0, f.1); let (i, v) = eval_line(&l, &mut stats, thorough); out.push(l, i, v); let l = format!("N {}", f.1); let (i, v) = eval_line(&l, &mut stats, thorough); out.push(l, i, v); }
+            for f in FUNCS { let l = format!("B {}", f.1); let (i, v) = eval_line(&l, &mut stats, thorough); out.push(l, i, v); }
             for n in ["FOO", "han", "Han", "LETTER_", ""] { let l = format!("N {}", n); let (i, v) = eval_line(&l, &mut stats, thorough); out.push(l, i, v); }
             let samples: Vec<String> = out.ops.iter().step_by((out.ops.len() / 5).max(1)).take(5).cloned().collect();
             let stats_s = format!("{{\"evaluations\":{},\"sets\":{},\"scalar_values_per_set\":1112064,\"distinct_nontrivial\":{},\"observed\":{:?},\"samples\":{:?}}}", FUNCS.len() as u64 * 1112064 * 2, FUNCS.len(), FUNCS.len(), stats, samples);
